@@ -6,7 +6,9 @@ PROPERTY = "C01"
 DRIVER = "drv_rev"
 THEOREMS = common.THEOREMS["C01"]
 PARTIAL = common.PARTIAL.get("C01", {})
-TRUSTED = rev_corr.REV_TRUSTED
+TRUSTED = list(rev_corr.REV_TRUSTED) + [
+    'which plain targets denote a revision for the `refused-target` oracle (a full id, a branch label, the one id of more than three characters that starts with the text) is decided by harness/rev_corr.denoted_plain from the history alone; these are the hypotheses under which C16.prefix_unique_resolves / C16.full_id prove that the model resolves the target',
+]
 RULE = common.RULE
 ASSUMPTIONS = common.ASSUMPTIONS
 
